@@ -3,7 +3,7 @@
 From Coq Require Import ZArith List Bool Ring Field Lia.
 Import ListNotations.
 Require Import MV.Lib.Base MV.C18.Ops MV.C18.Gen MV.C18.Model.
-Require Import MV.C18.Proofs_Herm MV.C18.Proofs_Opt MV.C18.Proofs_Cstr MV.C18.Proofs_Index.
+Require Import MV.C18.Proofs_Herm MV.C18.Proofs_Opt MV.C18.Proofs_Cstr MV.C18.Proofs_Index MV.C18.Proofs_Range.
 Open Scope Z_scope.
 
 (* the laws the theorems need beyond the field axioms (all hold in R: Examples.v) *)
@@ -187,6 +187,47 @@ Theorem harmonic_extension_instances :
 Proof.
   repeat split; try reflexivity.
   intros n fb M Hr a b v Hin. eapply partition_spec; eassumption.
+Qed.
+
+(* ---- the two pipelines as they are (n_smooth = 0): for EVERY solver whose answer satisfies the system assembled from the
+   model's own operator, constraints and partition, the result is the normalised harmonic extension of the constraints *)
+Theorem harmonic_faces (order : nat) D V F E FE :
+  let n := zlen F in let fb := fixed_face F E FE in
+  let L := lap_faces O order D V F E FE in let var0 := init_faces O order V F E FE in
+  let free := part_free n fb in let fixed := part_fixed n fb in
+  solves T O (optf_rhs O) L var0 free fixed (solve L free (opt_rhs_fn O (optf_rhs O) L fixed var0)) ->
+  let z := opt_first O solve (optf_rhs O) L var0 free fixed in
+  (forall j, memZ j free = false -> z j = var0 j) /\
+  (forall i, memZ i free = true -> mrow_dot O L i z = c0 O) /\
+  (isnil free = false -> forall i, ff_faces_fn order 0 D V F E FE i = norm_elem O (z i)).
+Proof.
+  intros n fb L var0 free fixed Hs z.
+  assert (Hp : partitioned T L free fixed).
+  { intros a b v Hin. eapply partition_spec; [| exact Hin]. intros a' b' v' H. exact (lap_faces_cols O order D V F E FE a' b' v' H). }
+  destruct (harmonic_extension T O Fth solve smooth true (optf_rhs O) optf_smooth_guard 0 L var0 free fixed
+              (fun w => eq_refl) Hp Hs) as [H1 [H2 H3]].
+  split; [exact H1 |]. split; [exact H2 |].
+  intros Hnil i. apply H3; [reflexivity | rewrite Hnil; reflexivity].
+Qed.
+
+Theorem harmonic_vertices (sn : bool) (order : nat) cots trs Bv (V : list (vec T)) F E FE :
+  faces_in_range (zlen V) F ->
+  let n := zlen V in let fb := feature_vertex E FE in
+  let L := lap_vertices O order cots trs F in let var0 := init_vertices O sn order V E Bv (tr_lookup O trs) FE in
+  let free := part_free n fb in let fixed := part_fixed n fb in
+  solves T O (optv_rhs O) L var0 free fixed (solve L free (opt_rhs_fn O (optv_rhs O) L fixed var0)) ->
+  let z := opt_first O solve (optv_rhs O) L var0 free fixed in
+  (forall j, memZ j free = false -> z j = var0 j) /\
+  (forall i, memZ i free = true -> mrow_dot O L i z = c0 O) /\
+  (forall i, ff_vertices_fn sn order 0 cots trs Bv V F E FE i = norm_elem O (z i)).
+Proof.
+  intros HF n fb L var0 free fixed Hs z.
+  assert (Hp : partitioned T L free fixed).
+  { intros a b v Hin. eapply partition_spec; [| exact Hin]. intros a' b' v' H. exact (lap_vertices_cols O order cots trs F n a' b' v' HF H). }
+  destruct (harmonic_extension T O Fth solve smooth false (optv_rhs O) optv_smooth_guard 0 L var0 free fixed
+              (fun w => eq_refl) Hp Hs) as [H1 [H2 H3]].
+  split; [exact H1 |]. split; [exact H2 |].
+  intros i. apply H3; reflexivity.
 Qed.
 
 End Pipe.
